@@ -6,6 +6,7 @@ package main
 // the frames are not trusted annotations.
 
 import (
+	"strings"
 	"go/types"
 
 	"golang.org/x/tools/go/ssa"
@@ -158,6 +159,8 @@ func storeTargets(addr ssa.Value, ms *ModSet) {
 	}
 }
 
+var geomDepth int
+
 func (p *Program) callMods(cc *ssa.CallCommon, ms *ModSet) {
 	if b, ok := cc.Value.(*ssa.Builtin); ok {
 		switch b.Name() {
@@ -203,6 +206,19 @@ func (p *Program) callMods(cc *ssa.CallCommon, ms *ModSet) {
 			ms.union(cm)
 		}
 		return
+	}
+	// geometry package: executed from source (see externalCall), so its writes are computed from source too
+	if callee.Pkg != nil && strings.HasPrefix(callee.Pkg.Pkg.Path(), "seehuhn.de/go/geom/") && len(callee.Blocks) > 0 && len(findLoops(callee)) == 0 {
+		if geomDepth < 8 {
+			geomDepth++
+			for _, b := range callee.Blocks {
+				for _, in := range b.Instrs {
+					p.instrMods(nil, in, ms, callee)
+				}
+			}
+			geomDepth--
+			return
+		}
 	}
 	// external
 	key := extKey(callee)
